@@ -2,12 +2,13 @@
    bayes_step c y p      : route (a) conditional transformation, then conditioning on the observed value
    bayes_step_joint      : route (b) joint transformation, then coordinate conditioning on the y block
    bayes_step_factor dxn : route (c) prior times the likelihood factor set_y, normalised
-   PARTIAL: (i) single components and a chain of two observations are proved; longer chains follow by
-   iterating the same two lemmas (no induction over an observation list is stated); (ii) the state-space
+   Observation lists of ANY length: C11_any_order, C11_evidence_any_number (induction over the list).
+   PARTIAL: the state-space
    (Kalman) statement against the dense joint is not proved -- predict = marginal transformation (C08) and
    update = conditional transformation (C09) are, and the filter is validated by the correspondence. *)
+From Coq Require Import Permutation.
 From mathcomp Require Import all_ssreflect all_algebra.
-From GT Require Import Tensor DetExec LogDom Obj Factor Measure Pdf Cond EvalLemmas Spec C01_proofs PdfLemmas C04_proofs C0809_proofs C11_proofs.
+From GT Require Import Tensor DetExec LogDom Obj Factor Measure Pdf Cond EvalLemmas Spec C01_proofs PdfLemmas C04_proofs C0809_proofs C11_proofs C11_list.
 Import GRing.Theory Num.Theory.
 Local Open Scope ring_scope.
 
@@ -63,7 +64,20 @@ Theorem C11_natural_parameters_determine_density (p p' : measure LS) r (x : vec 
   (forall i, (i < uD p)%N -> unu p r i = unu p' r i) ->
   ueval p r x = ueval p' r x.
 Proof. exact: natural_params_determine_density. Qed.
+
+(* ANY finite list of observations (each with its own M_i, b_i, Sigma_i): every permutation of the update order
+   gives the same posterior, and the log-integral of prior x all likelihood factors is the sum of the sequential
+   predictive log-densities.  obs_ok = shapes fit and the matrices that get inverted are invertible, step by step. *)
+Theorem C11_any_order (os os' : seq (obs LS)) (p : measure LS) (x : vec F) : pdf_ok p -> uR p = 1%N ->
+  Permutation os os' -> obs_ok os p -> obs_ok os' p ->
+  ueval (seq_update os p) 0%N x = ueval (seq_update os' p) 0%N x.
+Proof. exact: seq_update_perm. Qed.
+Theorem C11_evidence_any_number (os : seq (obs LS)) (p : measure LS) : pdf_ok p -> uR p = 1%N -> ~~ is_diag (ucls p) ->
+  obs_ok os p -> (log_integral (lik_product os p)).2 0%N = seq_evidence os p.
+Proof. exact: evidence_chain_derived. Qed.
 End C11.
+Print Assumptions C11_any_order.
+Print Assumptions C11_evidence_any_number.
 Print Assumptions C11_posterior_natural_parameters.
 Print Assumptions C11_routes_agree.
 Print Assumptions C11_order_independent.
